@@ -11,6 +11,10 @@ PROP = 'C11'
 
 # constructs whose emission consults the flag or the inferred types (text templates; @N@ = cell-unique suffix)
 ANNOT_CELLS = {
+    'function-declared-none-ending-in-none': 'def fnone(a: Int) -> None =>\n    print(a)\n    None\nfnone(1)\nprint("x")\n',
+    'method-declared-none': 'class KN\n    def mnone(self) -> None =>\n        print("m")\n        None\nKN().mnone()\n',
+    'class-arguments-and-body-fields': 'class KF(def a: Int, b: Str)\n    def f1: Int := 1\n    def fin f2: Str := "s"\n    def m(self) -> Int => self.a\nprint(KF(1, "s").m())\n',
+    'parent-with-arguments-and-body-fields': 'class KP(def a: Int)\nclass KC(x: Int): KP(x)\n    def f1: Int := 1\n    def m(self) -> Int => self.f1\nprint(KC(1).m())\n',
     'class-field-typed-no-value': 'class Acc\n    def balance: Int\n    def owner: Str\n    def __init__(self, o: Str) =>\n        self.owner := o\n        self.balance := 0\ndef a := Acc("x")\nprint(a.balance)\n',
     'class-field-typed-with-value': 'class Acc\n    def balance: Int := 5\n    def fin kind: Str := "k"\ndef a := Acc()\nprint(a.balance)\n',
     'handle-def-annotated': 'class E1(msg: Str): Exception(msg)\ndef f(k: Int) -> Int raise [E1] =>\n    if k > 1 then\n        raise E1("m")\n    k\ndef a: Int := f(5) handle\n    err: E1 => 0 - 1\nprint(a)\n',
